@@ -13,7 +13,7 @@ CHECKS = {
              'normalisation), the bounding-box prefilter never changes the answer (closed-walk parity), polygon-with-holes and box '
              'membership are the stated set expressions, and on rectangles insideEO is elementary insideness. Tied to '
              'structures.py by exhaustive small-grid rings x half-step queries x all rotations/reversals, holes, boxes, random rings.',
-        note='Trusted: Lean kernel + Mathlib; Jordan link (even-odd parity = topological inside) proved for strictly convex rings and triangles (Props/C01Convex), assumed for other simple rings and '
+        note='Trusted: Lean kernel + Mathlib; Jordan link (even-odd parity = topological inside) proved for strictly convex rings and triangles (Props/C01Convex); for every ring the answer is proved constant along polylines avoiding the ring and False for anything so joined to a point beyond the bounding box (Props/C01Parity); the converse half (only two components) is assumed and '
              'validated against an independent winding-number oracle; rational model vs binary64 code compared on dyadic grids only; '
              'antimeridian-spanning shapes excluded by the statement.',
         technique='Lean 4 proof (model = even-odd spec, invariance lemmas) + source translator (_point_in_polygon regenerated as Lean from the current text and proved equal to the model) + exhaustive/random differential correspondence vs GeoPolygon/GeoBox',
